@@ -159,7 +159,7 @@ def run_complete(facts, rep):
         for m in sorted(methods):
             n += 1
             rep.fn(m)
-            body = facts.hir[m]
+            body = facts.inlined(m)          # a `finish_round`-style helper is read in place
             d = Defs(body)
             finished = set()
             from facts import Tree
